@@ -581,6 +581,52 @@ Definition from_save (c : schunk) : sres (list (option (sect wcont)) * hmaps * l
 End Save.
 
 (* ------------------------------------------------------------------------------------------------ *)
+(* the block-entity loop of ChunkFromSave: Unmarshal of {id, x, y, z}, coordinates relative to the chunk
+   packed with PackXZ (an entity outside the chunk is an error), Y, the type by id, the NBT kept.
+   The struct decode and the id table are parameters (the harness passes what the library computed) *)
+Section SaveEntities.
+Variable be_fields : N * list N -> option (list N * Z * Z * Z).   (* v.Unmarshal(&tmp): id, x, y, z; None = error *)
+Variable entity_type : list N -> Z.                                (* block.EntityTypes[tmp.ID]; 0 when absent *)
+
+Definition be_local (w pos : Z) : Z := sx32 (u32 (w - sx32 (u32 (Z.shiftl pos 4)))).   (* int(tmp.X - c.XPos<<4) *)
+Definition from_save_be (xpos zpos : Z) (v : N * list N) : sres bent :=
+  match be_fields v with
+  | None => SErr
+  | Some (id, x, y, z) =>
+      match pack_xz (be_local x xpos) (be_local z zpos) with
+      | None => SErr
+      | Some p => SOk (mkBE p (sx16 (u16 y)) (entity_type id) (fst v) (snd v))
+      end
+  end.
+Fixpoint from_save_bes (xpos zpos : Z) (vs : list (N * list N)) : sres (list bent) :=
+  match vs with
+  | [] => SOk []
+  | v :: t => match from_save_be xpos zpos v with
+              | SOk b => match from_save_bes xpos zpos t with SOk r => SOk (b :: r) | SErr => SErr | SPanic w => SPanic w end
+              | SErr => SErr | SPanic w => SPanic w
+              end
+  end.
+End SaveEntities.
+
+(* ChunkFromSave with its block entities: sections first, then the entities, then the height maps *)
+Definition from_save_full st_id bio_id is_air gs gb be_fields entity_type
+           (c : schunk) (xpos zpos : Z) (bes : list (N * list N))
+  : sres (list (option (sect wcont)) * hmaps * list N * list bent) :=
+  match from_save_secs st_id bio_id is_air gs gb (sc_ypos c) (Z.of_N (lenN (sc_secs c))) (sc_secs c)
+                       (repeat None (length (sc_secs c))) with
+  | SErr => SErr | SPanic w => SPanic w
+  | SOk _ =>
+      match from_save_bes be_fields entity_type xpos zpos bes with
+      | SErr => SErr | SPanic w => SPanic w
+      | SOk es =>
+          match from_save st_id bio_id is_air gs gb c with
+          | SOk r => SOk (r, es)
+          | SErr => SErr | SPanic w => SPanic w
+          end
+      end
+  end.
+
+(* ------------------------------------------------------------------------------------------------ *)
 (* the section part of ChunkFromSave over ANY model of New*PaletteContainerWithData and Get: the same
    code as from_save_sec (from_save_sec_generic_eq below), so that theorems about another model of the
    constructor (C12's pc_with_data) speak about the same section glue                                  *)
